@@ -128,12 +128,14 @@ func WrapWriter(w io.Writer) io.Writer {
 
 // Process-level crash injection, used when the real binary is driven as a
 // sequence of processes: VERIF_CRASH=<point>:<n> kills the process with
-// SIGKILL at the n-th arrival (1-based) at <point> ("*" matches any point,
-// counted globally); VERIF_CRASH_LOG=<file> appends every point reached.
+// SIGKILL at the n-th arrival (1-based) at <point>; VERIF_CRASH_LOG=<file>
+// receives one line per point reached. Arrivals are counted across all
+// git-lfs processes of one command through the log file, so that (point, n)
+// names one instant of the whole command.
 func init() {
 	spec := os.Getenv("VERIF_CRASH")
 	logPath := os.Getenv("VERIF_CRASH_LOG")
-	if spec == "" && logPath == "" {
+	if logPath == "" {
 		return
 	}
 	var want string
@@ -143,21 +145,34 @@ func init() {
 		wantN, _ = strconv.Atoi(spec[i+1:])
 	}
 	var mu sync.Mutex
-	counts := map[string]int{}
 	CrashFn = func(point string) {
 		mu.Lock()
 		defer mu.Unlock()
-		counts[point]++
-		counts["*"]++
-		if logPath != "" {
-			if f, err := os.OpenFile(logPath, os.O_APPEND|os.O_CREATE|os.O_WRONLY, 0644); err == nil {
-				fmt.Fprintf(f, "%s:%d\n", point, counts[point])
-				f.Close()
-			}
+		f, err := os.OpenFile(logPath, os.O_APPEND|os.O_CREATE|os.O_RDWR, 0644)
+		if err != nil {
+			return
 		}
-		if want != "" && (want == point || want == "*") && counts[want] == wantN {
+		fmt.Fprintf(f, "%s\n", point)
+		f.Close()
+		if want == "" || want != point {
+			return
+		}
+		b, err := os.ReadFile(logPath)
+		if err != nil {
+			return
+		}
+		n := strings.Count("\n"+string(b), "\n"+point+"\n")
+		if n == wantN {
 			syscall.Kill(os.Getpid(), syscall.SIGKILL)
 			select {}
 		}
 	}
+	WrapReaderFn = func(r io.Reader) io.Reader { return &crashReader{r} }
+}
+
+type crashReader struct{ r io.Reader }
+
+func (c *crashReader) Read(p []byte) (int, error) {
+	Crash("copy.burst")
+	return c.r.Read(p)
 }
